@@ -102,11 +102,14 @@ def DftShapeOK (c : StageCfg) (s0 : StageSt) : Prop :=
 instance (c : StageCfg) (s0 : StageSt) : Decidable (DftShapeOK c s0) := by unfold DftShapeOK; exact inferInstance
 
 /-- post-context of a stage beyond the centre of its kernel, in periods of the stage's input: how far past the
-    represented instant the last sample an output reads lies, minus one -/
+    represented instant the last sample an output WAITS FOR lies, minus one.  For the cubic stage that is the stage's hold-back
+    `pre_post` (`max(3, ⌊factor⌋)`: an output is produced only once `pre_post + 1` frames from its position are in the FIFO), not
+    the four taps it reads - which is what keeps a large-factor cubic stage from handing out a frame the final total does not
+    contain. -/
 def margin (x : LStage) : Rat :=
   match x.cfg.kind with
   | .half => (x.cfg.prePost : Nat) - (x.lat.pre : Nat) - 1
-  | .clocked => if x.lat.cubic then (x.cfg.taps : Nat) - (x.lat.pre : Nat) - 2 else (x.lat.nc : Nat) / 2 - 1
+  | .clocked => if x.lat.cubic then (x.cfg.prePost : Nat) - (x.lat.pre : Nat) - 1 else (x.lat.nc : Nat) / 2 - 1
   | .dft => (((x.lat.postPeak : Nat) + 1 - (x.cfg.L : Nat)) : Rat) / (x.cfg.L : Nat)
 
 /-- the window of every output reaches at least to the centre of its kernel (so that no output can appear before the
@@ -114,7 +117,7 @@ def margin (x : LStage) : Rat :=
 def EarlyOK (x : LStage) : Prop :=
   match x.cfg.kind with
   | .half => x.lat.pre + 1 ≤ x.cfg.prePost
-  | .clocked => if x.lat.cubic then x.lat.pre + 2 ≤ x.cfg.taps else 2 ≤ x.lat.nc ∧ x.lat.nc ≤ x.cfg.taps
+  | .clocked => if x.lat.cubic then x.lat.pre + 2 ≤ x.cfg.taps ∧ x.lat.pre + 1 ≤ x.cfg.prePost else 2 ≤ x.lat.nc ∧ x.lat.nc ≤ x.cfg.taps
   | .dft => x.cfg.L ≤ x.lat.postPeak + 1 ∧ DftShapeOK x.cfg x.s0
 
 instance (x : LStage) : Decidable (EarlyOK x) := by
